@@ -23,6 +23,9 @@ SU(n) == [fam |-> "simple", L |-> n, blk |-> 1, pf |-> "", fl |-> 1, ss |-> FALS
 ZU(n) == [fam |-> "simple", L |-> n, blk |-> 4, pf |-> "", fl |-> 1, ss |-> FALSE]       \* ZUC-EEA3: whole keystream words
 DU(n, f, s) == [fam |-> "simple", L |-> n, blk |-> 1, pf |-> "", fl |-> f, ss |-> s]     \* DOCSIS: whole blocks in the lanes
 CU(n, t) == [fam |-> "simple", L |-> n, blk |-> 160, pf |-> t, fl |-> 16, ss |-> FALSE]   \* AES-CBCS 1:9: kernel steps of 160 bytes
+AU(n, r) == [fam |-> "simple", L |-> n, blk |-> r, pf |-> "", fl |-> 1, ss |-> FALSE]    \* ZUC-EIA3, lengths in bits: r = 65536: one kernel call
+                                                                                           \* finishes every lane (SSE, AVX2); r = 32: whole words (AVX512)
+QU(n) == [fam |-> "initq", L |-> n, blk |-> 1, pf |-> "", fl |-> 1, ss |-> FALSE]      \* SNOW3G-UIA2: lanes initialised together, digested one by one
 HU(n, b) == [fam |-> "hmac", L |-> n, blk |-> b, pf |-> "", fl |-> 1, ss |-> FALSE]
 PU(n, rule) == [fam |-> "phased", L |-> n, blk |-> 16, pf |-> rule, fl |-> 1, ss |-> FALSE]
 MU(n, b) == [fam |-> "shamb", L |-> n, blk |-> b, pf |-> "", fl |-> 1, ss |-> FALSE]
@@ -30,7 +33,7 @@ CbcUnits == {"cbc16", "cbc24", "cbc32"}
 CfbUnits == {"cfb16", "cfb24", "cfb32"}
 DesUnits == {"des_e", "des_d", "des3_e", "des3_d"}
 UnitNames == CbcUnits \cup CfbUnits \cup DesUnits \cup {"hmac1", "hmac224", "hmac256", "hmac384", "hmac512", "hmacmd5"}
-             \cup {"zuc128", "zuc256", "cbcs"} \cup {"ccm128", "ccm256"} \cup {"docsis128", "docsis256", "docsisdes_e", "docsisdes_d"} \cup {"xcbc", "cmac128", "cmac256"} \cup {"sha1", "sha224", "sha256", "sha384", "sha512"}
+             \cup {"zuc128", "zuc256", "cbcs", "zuceia3_128", "zuceia3_256", "zuceia3_256_8", "zuceia3_256_16", "snow3g", "snow3g_uia2"} \cup {"ccm128", "ccm256"} \cup {"docsis128", "docsis256", "docsis128crc", "docsis256crc", "docsisdes_e", "docsisdes_d"} \cup {"xcbc", "cmac128", "cmac256"} \cup {"sha1", "sha224", "sha256", "sha384", "sha512"}
 UnitsFor ==
     [un \in UnitNames |->
        CASE un \in CbcUnits -> SU(IF Variant = "avx512_t2" THEN 16 ELSE 8)
@@ -40,9 +43,13 @@ UnitsFor ==
                 HU(IF Avx512 THEN 16 ELSE IF Avx2 THEN 8 ELSE IF Variant = "sse_t1" THEN 4 ELSE 2, 64)
          [] un \in {"hmac224", "hmac256"} ->
                 HU(IF Avx512 THEN 16 ELSE IF ShaNi THEN 2 ELSE IF Avx2 THEN 8 ELSE 4, 64)
-         [] un \in {"docsis128", "docsis256"} -> DU(IF Variant = "avx512_t2" THEN 16 ELSE 8, 16, TRUE)   \* AES-CBC lanes, encrypt
+         [] un \in {"docsis128crc", "docsis256crc"} /\ Avx512 -> DU(IF Variant = "avx512_t2" THEN 16 ELSE 8, 16, FALSE)  \* CRC and cipher share the lanes: every job takes one
+         [] un \in {"docsis128", "docsis256", "docsis128crc", "docsis256crc"} -> DU(IF Variant = "avx512_t2" THEN 16 ELSE 8, 16, TRUE)   \* AES-CBC lanes, encrypt
          [] un \in {"docsisdes_e", "docsisdes_d"} -> DU(IF Avx512 THEN 16 ELSE 1, 8, FALSE)
          [] un = "cbcs" -> (IF Variant = "avx512_t2" THEN CU(12, "") ELSE IF Avx512 \/ Avx2 THEN CU(8, "") ELSE CU(4, "tienew"))
+         [] un \in {"zuceia3_128", "zuceia3_256", "zuceia3_256_8", "zuceia3_256_16"} -> (IF Avx512 THEN AU(16, 32) ELSE IF Avx2 THEN AU(8, 65536) ELSE AU(4, 65536))
+         [] un = "snow3g" -> SU(IF Avx512 THEN 16 ELSE 4)      \* lane length = clocks: 32 + 1 initialisation clocks + key-stream words
+         [] un = "snow3g_uia2" -> QU(IF Avx512 THEN 16 ELSE 4)
          [] un \in {"zuc128", "zuc256"} -> ZU(IF Avx512 THEN 16 ELSE IF Avx2 THEN 8 ELSE 4)
          [] un = "sha1" -> MU(IF Avx512 THEN 16 ELSE IF Avx2 THEN 8 ELSE IF Variant = "sse_t1" THEN 4 ELSE 2, 64)
          [] un \in {"sha224", "sha256"} -> MU(IF Avx512 THEN 16 ELSE IF ShaNi THEN 2 ELSE IF Avx2 THEN 8 ELSE 4, 64)
@@ -58,26 +65,35 @@ CO == INSTANCE ChainOps WITH U <- UnitsFor, Fuel <- 2000, LogStages <- FALSE, Le
 \* suite [mode, klen, dir, hash, order] -> units.  Modes: 1 CBC, 2 CTR, 3 NULL, 6 CUSTOM, 7 DES, 10 3DES, 12 ECB, 14 ZUC-EEA3, 26 CFB;
 \* hashes 1..5 HMAC-SHA1/224/256/384/512, 7 HMAC-MD5, 6 XCBC, 12/18 CMAC(-bitlen), 27 CMAC-256, 13..17 plain SHA-1/224/256/384/512, 8 NULL; direction 1 encrypt; order 2 = hash then cipher
 KeyTag(k) == CASE k = 16 -> "16" [] k = 24 -> "24" [] OTHER -> "32"
-CipherUnit(su) ==
-    CASE su[1] = 1 /\ su[3] = 1 -> (CASE su[2] = 16 -> "cbc16" [] su[2] = 24 -> "cbc24" [] OTHER -> "cbc32")
+CipherUnit(su, cadj) ==
+    CASE su[1] = 15 -> (IF cadj = 0 THEN "snow3g" ELSE "sync")     \* SNOW3G-UEA2: whole bytes only go through the lanes
+      [] su[1] = 1 /\ su[3] = 1 -> (CASE su[2] = 16 -> "cbc16" [] su[2] = 24 -> "cbc24" [] OTHER -> "cbc32")
       [] su[1] = 26 /\ su[3] = 1 -> (CASE su[2] = 16 -> "cfb16" [] su[2] = 24 -> "cfb24" [] OTHER -> "cfb32")
       [] su[1] = 7 -> (IF su[3] = 1 THEN "des_e" ELSE "des_d")
       [] su[1] = 10 -> (IF su[3] = 1 THEN "des3_e" ELSE "des3_d")
       [] su[1] = 6 -> "custom"
       [] su[1] = 14 -> (IF su[2] = 16 THEN "zuc128" ELSE "zuc256")
-      [] su[1] = 4 /\ su[3] = 1 /\ su[4] # 21 -> (IF su[2] = 16 THEN "docsis128" ELSE "docsis256")   \* (with CRC32: own managers, not modelled)
+      [] su[1] = 4 /\ su[3] = 1 /\ su[4] # 21 -> (IF su[2] = 16 THEN "docsis128" ELSE "docsis256")
+      [] su[1] = 4 /\ su[3] = 1 /\ su[4] = 21 -> (IF su[2] = 16 THEN "docsis128crc" ELSE "docsis256crc")   \* with CRC32: managers of their own
       [] su[1] = 17 /\ su[3] = 1 -> "cbcs"
       [] su[1] = 8 -> (IF su[3] = 1 THEN "docsisdes_e" ELSE "docsisdes_d")
       [] OTHER -> "sync"
-HashUnit(su) ==
+HashUnit(su, tag) ==
     CASE su[4] = 1 -> "hmac1" [] su[4] = 2 -> "hmac224" [] su[4] = 3 -> "hmac256" [] su[4] = 4 -> "hmac384"
       [] su[4] = 5 -> "hmac512" [] su[4] = 7 -> "hmacmd5" [] su[4] = 6 -> "xcbc"
       [] su[4] \in {12, 18} -> "cmac128" [] su[4] = 27 -> "cmac256"
       [] su[4] = 10 -> "custom"
+      [] su[4] = 22 -> "snow3g_uia2"
+      [] su[4] = 20 -> "zuceia3_128" [] su[4] = 31 -> (CASE tag = 8 -> "zuceia3_256_8" [] tag = 16 -> "zuceia3_256_16" [] OTHER -> "zuceia3_256")   \* a manager per tag length
       [] su[4] = 11 -> (IF su[2] = 16 THEN "ccm128" ELSE "ccm256")         \* AES-CCM: CBC-MAC lanes, the CTR part is synchronous
       [] su[4] = 13 -> "sha1" [] su[4] = 14 -> "sha224" [] su[4] = 15 -> "sha256" [] su[4] = 16 -> "sha384" [] su[4] = 17 -> "sha512"
       [] OTHER -> "sync"
-InfoOf(t) == [cu |-> CipherUnit(t.su), hu |-> HashUnit(t.su), hc |-> t.su[5] = 2, len |-> t.len, hlen |-> t.hlen,
+\* the bit-length hash lanes select by length in bits
+BitHash(su) == su[4] \in {20, 22, 31}
+HLen(su, hlen, adj) == IF BitHash(su) THEN hlen * 8 - adj ELSE hlen
+CLen(su, len) == IF su[1] = 15 THEN 33 + (len + 3) \div 4 ELSE len
+InfoOf(t) == [cu |-> CipherUnit(t.su, IF "cadj" \in DOMAIN t THEN t.cadj ELSE 0), cfu |-> CipherUnit(t.su, 0), hu |-> HashUnit(t.su, IF "taglen" \in DOMAIN t THEN t.taglen ELSE 0), hc |-> t.su[5] = 2, len |-> CLen(t.su, t.len),
+              hlen |-> HLen(t.su, t.hlen, IF "hadj" \in DOMAIN t THEN t.hadj ELSE 0),
               cf |-> IF "cfail" \in DOMAIN t THEN t.cfail ELSE 0,
               aad |-> IF "aadlen" \in DOMAIN t THEN t.aadlen ELSE 0]
 
@@ -87,6 +103,11 @@ cvars2 == <<tvars, cm, cinfo>>
 
 Ids(S) == { j - 1 : j \in S }
 Done(ms) == (ms.cd \cap ms.ad) \cup ms.failed
+
+\* the model's completions of a call against the recorded ones; a disagreement is printed (it is what one needs to see)
+Agree(ok, predicted, recorded) ==
+    \/ ok /\ predicted = recorded
+    \/ PrintT(<<"LEVEL_B_DISAGREES_AT_LINE", l, "predicted", predicted, "recorded", recorded, "loops_end", ok>>) /\ FALSE
 
 \* submit_burst_and_check: submit_new_burst_job for every job of the burst, in order
 RECURSIVE SubmitAll(_, _, _, _)
@@ -113,20 +134,20 @@ ChainStep ==
                      r2 == IF r1.ok /\ full THEN CO!CompleteJob(inf, r1.ms, tgt, 2000) ELSE r1
                  IN /\ cinfo' = inf
                     /\ cm' = r2.ms
-                    /\ LaneStrict => (r2.ok /\ Ids(Done(r2.ms) \ Done(cm)) = ToSet(t.done))
+                    /\ LaneStrict => Agree(r2.ok, Ids(Done(r2.ms) \ Done(cm)), ToSet(t.done))
       [] t.e = "FlushJob" ->
             IF earliest[m] < 0 THEN (LaneStrict => t.done = <<>>) /\ UNCHANGED <<cm, cinfo>>
             ELSE LET r == CO!CompleteJob(cinfo, cm, slot[m][earliest[m]].id + 1, 2000) IN
                  /\ cm' = r.ms /\ UNCHANGED cinfo
-                 /\ LaneStrict => (r.ok /\ Ids(Done(r.ms) \ Done(cm)) = ToSet(t.done))
+                 /\ LaneStrict => Agree(r.ok, Ids(Done(r.ms) \ Done(cm)), ToSet(t.done))
       [] t.e = "SubmitBurst" ->
             IF t.rejected = 1 \/ Len(t.ids) = 0 THEN (LaneStrict => t.done = <<>>) /\ UNCHANGED <<cm, cinfo>>
             ELSE LET k == Len(t.ids)
                      inf == [j \in DOMAIN cinfo \cup { t.ids[i] + 1 : i \in 1 .. k } |->
                                IF j \in DOMAIN cinfo THEN cinfo[j]
                                ELSE LET i == CHOOSE i \in 1 .. k : t.ids[i] + 1 = j IN
-                                    [cu |-> CipherUnit(t.sus[i]), hu |-> HashUnit(t.sus[i]), hc |-> t.sus[i][5] = 2,
-                                     len |-> t.lens[i], hlen |-> t.hlens[i],
+                                    [cu |-> CipherUnit(t.sus[i], IF "cadjs" \in DOMAIN t THEN t.cadjs[i] ELSE 0), cfu |-> CipherUnit(t.sus[i], 0), hu |-> HashUnit(t.sus[i], IF "taglens" \in DOMAIN t THEN t.taglens[i] ELSE 0), hc |-> t.sus[i][5] = 2,
+                                     len |-> CLen(t.sus[i], t.lens[i]), hlen |-> HLen(t.sus[i], t.hlens[i], IF "hadjs" \in DOMAIN t THEN t.hadjs[i] ELSE 0),
                                      cf |-> IF "cfails" \in DOMAIN t THEN t.cfails[i] ELSE 0,
                                      aad |-> IF "aadlens" \in DOMAIN t THEN t.aadlens[i] ELSE 0]]
                      r1 == SubmitAll(inf, [ms |-> cm, ok |-> TRUE], t.ids, 1)
@@ -136,13 +157,13 @@ ChainStep ==
                      r2 == IF r1.ok /\ wrapped /\ ~ lead THEN CompleteAll(inf, r1, pend, 1, k) ELSE r1
                  IN /\ cinfo' = inf
                     /\ cm' = r2.ms
-                    /\ LaneStrict => (r2.ok /\ Ids(Done(r2.ms) \ Done(cm)) = ToSet(t.done))
+                    /\ LaneStrict => Agree(r2.ok, Ids(Done(r2.ms) \ Done(cm)), ToSet(t.done))
       [] t.e = "FlushBurst" ->
             LET pend == [i \in 1 .. Len(pending[m]) |-> pending[m][i] + 1]
                 n == IF Len(pend) < t.max THEN Len(pend) ELSE t.max
                 r == CompleteAll(cinfo, [ms |-> cm, ok |-> TRUE], pend, 1, n)
             IN /\ cm' = r.ms /\ UNCHANGED cinfo
-               /\ LaneStrict => (r.ok /\ Ids(Done(r.ms) \ Done(cm)) = ToSet(t.done))
+               /\ LaneStrict => Agree(r.ok, Ids(Done(r.ms) \ Done(cm)), ToSet(t.done))
       [] OTHER -> UNCHANGED <<cm, cinfo>>
 
 CInit2 == TraceInit /\ cm = CO!EmptyMachine /\ cinfo = <<>>
